@@ -622,6 +622,8 @@ def constructor_table(ctx, rule, class_qualname, max_tokens, mode="wellformed", 
             raise Undecided("decimal.Decimal(%r)" % (value,))
 
         stubs = {
+            # texts of limits for messages: not part of the decision (their escapes are C10's)
+            "cutplace.ranges._decimal_as_text": stub(lambda interp_, args_, kwargs_: Opaque("str", True, ["<decimal text>"])),
             "cutplace._tools.tokenize_without_space": tokens_stub,
             "cutplace.ranges.code_for_number_token": limit_stub("NUM"),
             "cutplace.ranges.code_for_symbolic_token": limit_stub("NAME"),
